@@ -1188,13 +1188,14 @@ def _corpus_no_exception(model, extra):
 
 @mirror("generated_no_exception")
 def _generated_no_exception(model, extra):
-    """bounded stand-in for C03: optimize returns (raises nothing) on a fixed sample of the schema-generated programs of
-    every trait, under that trait alone, under the default selection and under all traits"""
+    """bounded stand-in for C03: optimize returns (raises nothing, within 60 s) on a fixed sample of the schema-generated
+    programs of every trait (20 per trait, 120 in the thorough tier), under that trait alone, under the default
+    selection and under all traits"""
     from native.gen import GENERATORS, sample
     from native.mirrors import TRAITS as _T
     from native.witnesses import optimise
 
-    per = int(extra.get("n", 20)) if extra.get("tier") != "thorough" else 0
+    per = int(extra.get("n", 20)) if extra.get("tier") != "thorough" else int(extra.get("n_thorough", 120))
     n = 0
     for trait in GENERATORS:
         for entry in sample(trait, per, int(extra.get("seed", 0))):
@@ -1202,7 +1203,7 @@ def _generated_no_exception(model, extra):
             for traits in ([trait], [t for t in _T if t != "duplication"], list(_T)):
                 n += 1
                 try:
-                    optimise(prg, traits)
+                    optimise(prg, traits, limit_s=60)
                 except RuntimeError as e:
                     if "syntax error" in str(e) or "parsing failed" in str(e):
                         continue  # not a valid program: not a test
